@@ -13,12 +13,12 @@ theorem Spec.anyErr {α : Type} {P : World → Prop} {x : M α} {Q : α → Worl
 section
 variable (T : CTab) (H : List Nat)
 
-theorem secretRandom_ri : Spec (RI T .none H) secretRandom (fun p => RI T (.sec p.1) H) (RI T .none H) :=
+theorem secretRandom_ri : Spec (RI T .none H) secretRandom (fun p => RI T (.sec p.1 p.2) H) (RI T .none H) :=
   secretRandom_spec T (hcount H)
-theorem secretNew_ri (b m : Nat) : Spec (RI T .none H) (secretNew b m) (fun s => RI T (.sec s) H) (RI T .none H) :=
+theorem secretNew_ri (b m : Nat) : Spec (RI T .none H) (secretNew b m) (fun s => RI T (.sec s m) H) (RI T .none H) :=
   secretNew_spec T (hcount H) b m
 theorem newKeyObj_ri {E : World → Prop} (c : Int) (r : Bool) (m s : Nat) :
-    Spec (RI T (.sec s) H) (newKeyObj c r m s) (fun o => RI T (.obj o) H) E :=
+    Spec (RI T (.sec s m) H) (newKeyObj c r m s) (fun o => RI T (.obj o) H) E :=
   (newKeyObj_spec T (hcount H) c r m s).anyErr
 theorem keyCloseRaw_ri {E : World → Prop} (o : Nat) : Spec (RI T (.obj o) H) (keyCloseRaw o) (fun _ => RI T .none H) E :=
   (keyCloseRaw_spec T (hcount H) o).anyErr
